@@ -5,9 +5,13 @@
 cd /verif
 ids=${@:-$(ls refactors | grep -E '^R[0-9]+-[0-9]+$')}
 bad=0
+# documented fail-closed limits (refactors/INDEX.md, DESIGN.md §9): the checks raise an alarm on these two although behaviour is preserved
+limits=" R8-3 R8-6 "
 for id in $ids; do
   out=$(./devtools/try_refactor.sh /verif/refactors/$id/patch.diff 2>&1)
-  if echo "$out" | grep -q "^silent"; then echo "$id silent"; else echo "$id ALARM"; echo "$out" | cut -c1-300 | head -12; bad=1; fi
+  if echo "$out" | grep -q "^silent"; then echo "$id silent"
+  elif [[ "$limits" == *" $id "* ]]; then echo "$id alarm (documented limit)"; echo "$out" | grep -E "rule=" | cut -c1-200 | head -8
+  else echo "$id ALARM"; echo "$out" | cut -c1-300 | head -12; bad=1; fi
 done
 rm -rf /tmp/verif-scratch
 exit $bad
